@@ -143,6 +143,14 @@ class Select(TypedExpression):
         )
         if expression_str.endswith("\n") and attr_sep.startswith("\n"):
             attr_sep = attr_sep[1:]
+        if not attr_before_str and not attr_sep:
+            from nix_manipulator.expressions.path import NixPath
+
+            if isinstance(self.expression, NixPath) and not expression_str.endswith(
+                (">", "\n")
+            ):
+                # `./a .b` selects from a path; `./a.b` would be another path.
+                attr_sep = " "
         after_dot = ""
         if self.attr_after_dot:
             after_dot = self._comments_then(
